@@ -12,7 +12,7 @@ def grid(quick):
     g = []
     reals = [REAL(2), REAL(1, 1, 0.0, 4.0)] if quick else [REAL(2), REAL(1, 1, 0.0, 4.0), REAL(5, 1, -4.0, 12.0), REAL(3, 0, 0.5, 0.75)]
     bits = [BITS(8)] if quick else [BITS(1), BITS(8)]
-    tsps = [TSP(5)] if quick else [TSP(4), TSP(7, 1), TSP(8, 2)]
+    tsps = [TSP(5), TSP(5, 3)] if quick else [TSP(4), TSP(7, 1), TSP(8, 2), TSP(6, 3)]
     for pr in reals:
         for ps, ts in ([(4, 2), (1, 1)] if quick else [(4, 2), (1, 1), (7, 7), (10, 3)]):
             for pm in ([1.0] if quick else [0.0, 0.5, 1.0]):
@@ -24,6 +24,9 @@ def grid(quick):
         w = pr["hi"] - pr["lo"]
         for np_, c, vm in ([(3, 0.5, 0.1), (1, 0.0, 10.0)] if quick else [(1, 0.0, 10.0), (2, 0.5, 0.1), (3, 2.0, 0.001), (10, 0.5, 0.1), (10, 0.0, 10.0)]):
             g.append(("real_pso", {"num_particles": np_, "start_weight": 0.9, "end_weight": 0.4, "c_one": c, "c_two": c, "v_max": vm * w}, pr, (np_, np_)))
+        # inertia schedules: decreasing (above), increasing (the example of the mapping documentation), constant
+        g.append(("real_pso", {"num_particles": 3, "start_weight": 0.4, "end_weight": 0.9, "c_one": 0.5, "c_two": 0.5, "v_max": 0.1 * w}, pr, (3, 3)))
+        g.append(("real_pso", {"num_particles": 2, "start_weight": 0.7, "end_weight": 0.7, "c_one": 0.0, "c_two": 0.0, "v_max": 10.0 * w}, pr, (2, 2)))
         for t0 in ([1.0] if quick else [1e-9, 1.0, 1e9]):
             g.append(("real_sa", {"t_0": t0, "alpha": 0.9, "deviation": 0.1}, pr, (1, 1)))
         for nn in ([3] if quick else [1, 3, 8]):
@@ -60,11 +63,16 @@ def grid(quick):
             g.append(("permutation_random_walk", {"num_swap": ns}, pr, (1, 1)))
         g.append(("permutation_rs", {}, pr, (1, 1)))
         for ants in ([3] if quick else [1, 3, 6]):
-            for a, b in ([(1.0, 1.0)] if quick else [(1.0, 1.0), (0.0, 2.0), (2.0, 0.5)]):
+            for a, b in ([(1.0, 1.0), (1.0, 5.0)] if quick else [(1.0, 1.0), (0.0, 2.0), (2.0, 0.5), (1.0, 5.0)]):
                 g.append(("ant_system", {"num_ants": ants, "alpha": a, "beta": b, "default_pheromones": 1.0, "evaporation": 0.1,
                                          "decay_coefficient": 1.0}, pr, (ants + 1, ants + 1)))
                 g.append(("max_min_ant_system", {"num_ants": ants, "alpha": a, "beta": b, "default_pheromones": 0.5, "evaporation": 0.1,
                                                  "max_pheromones": 1.0, "min_pheromones": 0.1}, pr, (ants + 1, ants + 1)))
+            # the default level may lie outside the bounds: the first update has to bring every trail inside
+            g.append(("max_min_ant_system", {"num_ants": ants, "alpha": 1.0, "beta": 1.0, "default_pheromones": 10.0, "evaporation": 0.05,
+                                             "max_pheromones": 2.0, "min_pheromones": 0.1}, pr, (ants + 1, ants + 1)))
+            g.append(("max_min_ant_system", {"num_ants": ants, "alpha": 1.0, "beta": 1.0, "default_pheromones": 0.001, "evaporation": 0.05,
+                                             "max_pheromones": 2.0, "min_pheromones": 0.1}, pr, (ants + 1, ants + 1)))
     return g
 
 
@@ -75,4 +83,27 @@ def specs(quick, seeds, iters):
             for s in seeds:
                 out.append({"run": len(out), "template": t, "params": params, "n": n, "seed": s, "eval": "seq", "prob": prob,
                             "size_lo": lo, "size_hi": hi})
+    return out
+
+
+def component_specs(quick, seeds, iters):
+    """'comp:' pseudo-templates: every shipped variation component between a selection (All, or FullyRandom(k) for odd /
+    even parent counts) and an evaluation, on evaluated parents."""
+    real = ["UniformCrossover_single", "UniformCrossover_both", "NPointCrossover_single", "NPointCrossover_both",
+            "ArithmeticCrossover_single", "ArithmeticCrossover_both", "NormalMutation", "UniformMutation", "PartialRandomSpread"]
+    bits = ["UniformCrossover_single", "UniformCrossover_both", "NPointCrossover_single", "NPointCrossover_both",
+            "BitFlipMutation", "PartialRandomBitstring"]
+    perm = ["CycleCrossover_single", "CycleCrossover_both", "SwapMutation", "ScrambleMutation", "InversionMutation",
+            "InsertionMutation", "TranslocationMutation"]
+    out = []
+    shapes = [(4, 0), (3, 0), (5, 3)] if quick else [(1, 0), (2, 0), (3, 0), (4, 0), (5, 3), (6, 5), (4, 1)]
+    pcs = [0.5, 1.0] if quick else [0.0, 0.5, 1.0]
+    for comps, prob in ((real, REAL(3, 1, -4.0, 12.0)), (bits, BITS(8)), (perm, TSP(6))):
+        for c in comps:
+            for popsize, select in shapes:
+                for pc in (pcs if "Crossover" in c else [1.0]):
+                    for n in iters:
+                        for s in seeds:
+                            out.append({"run": len(out), "template": "comp:" + c, "params": {"popsize": popsize, "select": select, "pc": pc, "rm": 0.5},
+                                        "n": n, "seed": s, "eval": "seq", "prob": prob, "size_lo": 0, "size_hi": 10 ** 6})
     return out
